@@ -447,6 +447,69 @@ theorem C09_nothing_unused {song : Song} {d : DataInfo} (hpc : PlatformClean d) 
     · left; refine ⟨h1, ?_⟩; rw [h2, u16_nat]; omega
     · right; refine ⟨h1, ?_⟩; rw [h2, u16_succ]; omega
 
+/-- `index_resolves`, per event: whatever index-bearing event a hook call pushes carries the index
+that the conversion state registers under the key of the id THIS song event names — the
+subroutine key (track, drum flags) of a `JUMP`, the data-bank index of the `INS` instrument
+(tagged for PCM) or of the `PITCH_ENVELOPE` (tagged when extended), the macro track of a
+`PAN_ENVELOPE`.  (Maps only grow — `SubMono`, `getEnvelope` appends — so the key keeps that index
+to the end of the conversion.) -/
+theorem C09_event_names {song : Song} {d : DataInfo} (hpc : PlatformClean d) {n : Nat} {c c' : Conv} {w w' : WState}
+    {it : Player.TraceItem} {L : List (List MEv)} {P : Pend} (hinv : Inv song d c (w.out :: L) P)
+    (h : hook song d (n + 1) c w it = .ok (c', w')) :
+    ∃ new, w'.out = w.out ++ new ∧ ∀ ev ∈ new, EventNames d it w c' ev := by
+  have ih := writerInv (song := song) hpc n
+  cases hook_step hpc h with
+  | plain w' evs hout hpl => exact ⟨evs, hout, fun ev he => eventNames_of_plain (hpl ev he)⟩
+  | drum c' id w' pre ev _ _ _ hout hpre _ hplain =>
+    exact ⟨pre ++ [ev], by rw [hout, List.append_assoc], eventNames_append hpre (eventNames_of_plain hplain)⟩
+  | jump c' id w' pre ht hg hout hpre =>
+    obtain ⟨k, rfl, _, hmem, _, _⟩ := ih.sub c _ _ _ c' id (w.out :: L) P hinv hg
+    refine ⟨pre ++ [⟨mds_PAT, u16 (k : Int)⟩], by rw [hout, List.append_assoc], eventNames_append hpre ?_⟩
+    refine ⟨fun _ => ⟨ht, k, rfl, hmem⟩, fun t => ?_, fun t => ?_, fun t => ?_⟩
+    · rcases t with t | t
+      · exact absurd (show mds_PAT = mds_INS from t) (by decide)
+      · exact absurd (show mds_PAT = mds_PCM from t) (by decide)
+    · exact absurd (show mds_PAT = mds_PEG from t) (by decide)
+    · exact absurd (show mds_PAT = mds_MTAB from t) (by decide)
+  | data key ty arg w' pre hf hout hpre hprov =>
+    have hmemU := (getEnvelope_spec c key hinv.maps).2.2.2.2.2.2.2
+    refine ⟨pre ++ [⟨ty, arg⟩], by rw [hout, List.append_assoc], eventNames_append hpre ?_⟩
+    rcases hprov with ⟨hti, idx, tyI, he, _, hk⟩ | ⟨htp, hne, idx, hl, hkey, hty⟩
+    · -- an instrument
+      have hty : ty = mds_INS ∨ ty = mds_PCM := by rcases hk with ⟨_, _, h⟩ | ⟨_, _, h⟩; exact Or.inl h; exact Or.inr h
+      have harg : arg = u16 ((getEnvelope c key).2 : Int) := by
+        rcases hf with ⟨_, ha⟩ | ⟨hp, _⟩
+        · exact ha
+        · rcases hty with h | h <;> (rw [h] at hp; exact absurd hp (by decide))
+      refine ⟨fun t => ?_, fun _ => ⟨hti, idx, (getEnvelope c key).2, he, harg, ?_⟩, fun t => ?_, fun t => ?_⟩
+      · rcases hty with h | h <;> (rw [show ty = mds_PAT from t] at h; exact absurd h (by decide))
+      · rcases hk with ⟨_, hkk, h⟩ | ⟨_, hkk, h⟩
+        · left; exact ⟨h, by rw [← hkk]; exact hmemU⟩
+        · right; exact ⟨h, by rw [← hkk]; exact hmemU⟩
+      · rcases hty with h | h <;> (rw [show ty = mds_PEG from t] at h; exact absurd h (by decide))
+      · rcases hty with h | h <;> (rw [show ty = mds_MTAB from t] at h; exact absurd h (by decide))
+    · -- a pitch envelope
+      have harg : arg = u16 (wrap16 (((getEnvelope c key).2 : Int) + 1)) := by
+        rcases hf with ⟨hp, _⟩ | ⟨_, ha⟩
+        · rcases hp with hp | hp <;> (rw [hty] at hp; exact absurd hp (by decide))
+        · exact ha
+      refine ⟨fun t => ?_, fun t => ?_, fun _ _ => ⟨htp, idx, (getEnvelope c key).2, hl, harg, by rw [← hkey]; exact hmemU⟩, fun t => ?_⟩
+      · exact absurd (show mds_PEG = mds_PAT from hty ▸ t) (by decide)
+      · rcases t with t | t
+        · exact absurd (show mds_PEG = mds_INS from hty ▸ t) (by decide)
+        · exact absurd (show mds_PEG = mds_PCM from hty ▸ t) (by decide)
+      · exact absurd (show mds_PEG = mds_MTAB from hty ▸ t) (by decide)
+  | mtab c' id w' pre ht hne hg hout hpre =>
+    obtain ⟨k, rfl, _, hmem, _, _⟩ := ih.mac c _ c' id (w.out :: L) P hinv hg
+    obtain ⟨ev, hev⟩ : ∃ ev : MEv, ev = ⟨mds_MTAB, u16 (wrap16 ((k : Int) + 1))⟩ := ⟨_, rfl⟩
+    refine ⟨pre ++ [ev], by rw [hout, List.append_assoc, hev], eventNames_append hpre ?_⟩
+    have h1 : ev.type = mds_MTAB := by rw [hev]
+    have h2 : ev.arg = u16 (wrap16 ((k : Int) + 1)) := by rw [hev]
+    refine ⟨fun t => ?_, fun t => ?_, fun t => ?_, fun _ _ => ⟨ht, k, h2, hmem⟩⟩
+    · rw [h1] at t; exact absurd t (by decide)
+    · rcases t with t | t <;> (rw [h1] at t; exact absurd t (by decide))
+    · rw [h1] at t; exact absurd t (by decide)
+
 /-! ### non-vacuity: a conversion state with one subroutine, one data item and one channel track
 assembles, and the container is produced -/
 def exConv : Conv := { subList := [[⟨mds_FINISH, 0⟩]], subMap := [(400, 0)], usedData := [(1, 0)] }
